@@ -26,9 +26,9 @@ func init() {
 		ID: "C39",
 		Explanation: "Decides a necessary condition of C39's 'no data races or fatal errors' clause for the interpreter's own shared state: (EVALER-LOCK) every field of Evaler declared under its mutex (global, builtin, deprecations, modules, valuePrefix, notifyBgJobSuccess, numBgJobs) is read only with mu held (read or write) and written only with the write lock held, on every path of every function in the program, a map loaded from such a field is not used after the lock is released, the lock is never re-acquired while held, released while not held, or still held at a return without a deferred unlock; (PTRVAR-LOCK) the pointer inside vars.PtrVar is dereferenced only under the PtrVar's mutex (write lock for ScanToGo). The field list is derived from the struct declaration (fields after mu), not hard-coded. It does not decide races on other shared state nor serialisability of results.",
 		NotCovered:  "races on state outside Evaler/PtrVar (e.g. Ns slots written by closures running in parallel, which Elvish leaves to the script), serialisability of evaluation results",
-		Rules:       []string{"EVALER-LOCK: lockset with boolean-correlated path sensitivity over all accesses to Evaler's guarded fields", "PTRVAR-LOCK: lockset for PtrVar.ptr under PtrVar.mutex", "GUARDED-SET: the guarded field set equals the fields declared after the mutex in the struct"},
+		Rules:       []string{"EVALER-LOCK: lockset with boolean-correlated path sensitivity over all accesses to Evaler's guarded fields", "PTRVAR-LOCK: lockset for PtrVar.ptr under PtrVar.mutex", "GUARDED-SET: the guarded field set equals the fields declared after the mutex in the struct", "RLOCK-WRITE: contradiction rule over every struct with an RWMutex: no field of the struct is written while only its read lock is held"},
 		Run:         runC39,
-		MinCounts:   map[string]int{"EVALER-LOCK": 25, "PTRVAR-LOCK": 3},
+		MinCounts:   map[string]int{"EVALER-LOCK": 25, "PTRVAR-LOCK": 3, "RLOCK-WRITE": 5},
 		Trusted:     trustedBase,
 		Controls: []core.Control{
 			{Name: "revert-fix-use-reads-modules-unlocked", Rule: "EVALER-LOCK", File: "pkg/eval/builtin_special.go", Old: "if ns, ok := fm.Evaler.getModule(spec); ok {", New: "if ns, ok := fm.Evaler.modules[spec]; ok {", Fire: true, Want: "use", Quick: true, Patterns: []string{"./pkg/eval"}},
@@ -38,6 +38,7 @@ func init() {
 			{Name: "eval-error-path-keeps-lock", Rule: "EVALER-LOCK", File: "pkg/eval/eval.go", Old: "\tif err != nil {\n\t\tif defaultGlobal {\n\t\t\tev.mu.Unlock()\n\t\t}\n\t\treturn err\n\t}", New: "\tif err != nil {\n\t\treturn err\n\t}", Fire: true, Want: "returns holding", Patterns: []string{"./pkg/eval"}},
 			{Name: "write-under-read-lock", Rule: "EVALER-LOCK", File: "pkg/eval/eval.go", Old: "func (ev *Evaler) addNumBgJobs(delta int) {\n\tev.mu.Lock()\n\tdefer ev.mu.Unlock()", New: "func (ev *Evaler) addNumBgJobs(delta int) {\n\tev.mu.RLock()\n\tdefer ev.mu.RUnlock()", Fire: true, Want: "addNumBgJobs", Patterns: []string{"./pkg/eval"}},
 			{Name: "ptrvar-set-under-read-lock", Rule: "PTRVAR-LOCK", File: "pkg/eval/vars/ptr.go", Old: "\tv.mutex.Lock()\n\tdefer v.mutex.Unlock()\n\treturn vals.ScanToGo(val, v.ptr)", New: "\tv.mutex.RLock()\n\tdefer v.mutex.RUnlock()\n\treturn vals.ScanToGo(val, v.ptr)", Fire: true, Patterns: []string{"./pkg/eval"}},
+			{Name: "envlist-get-writes-cache-under-rlock", Rule: "RLOCK-WRITE", File: "pkg/eval/vars/env_list.go", Old: "\tenvli.Lock()\n\tdefer envli.Unlock()\n\n\tvalue := os.Getenv", New: "\tenvli.RLock()\n\tdefer envli.RUnlock()\n\n\tvalue := os.Getenv", Fire: true, Patterns: []string{"./pkg/eval"}},
 			{Name: "benign-rlock-for-pure-read", Rule: "EVALER-LOCK", File: "pkg/eval/eval.go", Old: "func (ev *Evaler) registerDeprecation(d deprecation) bool {\n\tev.mu.Lock()\n\tdefer ev.mu.Unlock()", New: "func (ev *Evaler) registerDeprecation(d deprecation) bool {\n\tev.mu.Lock()\n\tdefer func() { ev.mu.Unlock() }()", Fire: false, Patterns: []string{"./pkg/eval"}},
 			{Name: "benign-explicit-unlock-instead-of-defer", Rule: "EVALER-LOCK", File: "pkg/eval/eval.go", Old: "func (ev *Evaler) getNumBgJobs() int {\n\tev.mu.RLock()\n\tdefer ev.mu.RUnlock()\n\treturn ev.numBgJobs\n}", New: "func (ev *Evaler) getNumBgJobs() int {\n\tev.mu.RLock()\n\tn := ev.numBgJobs\n\tev.mu.RUnlock()\n\treturn n\n}", Fire: false, Patterns: []string{"./pkg/eval"}},
 		},
@@ -108,6 +109,7 @@ func runC39(p *core.Program, r *core.Report) {
 	}
 	runLockset(p, r, "EVALER-LOCK", spec, p.RepoFns)
 	runLockset(p, r, "PTRVAR-LOCK", ptrVarSpec, p.FnsInPkg(pkgVars))
+	runRLockWrite(p, r, "RLOCK-WRITE")
 }
 
 func runC32(p *core.Program, r *core.Report) {
